@@ -156,3 +156,21 @@ func checkRevert(shape string, sym, force, atEffective bool) {
 	verifReach("reverted")
 	verifReach("end")
 }
+
+// the request's own metadata cannot displace the mark that says which transaction a revert reverts: a request that
+// already carries the reserved key (a client forwarding the metadata of an earlier revert) still gets the right mark
+func Harness_REVC_reserved_key_in_request_metadata() {
+	db, ctrl := setupHistory(false)
+	forwarded := nondetStr("forwarded", 3)
+	_, out, _, err := ctrl.RevertTransaction(bg, Parameters[RevertTransaction]{Input: RevertTransaction{TransactionID: 3, Force: true,
+		Metadata: metadata.Metadata{ledger.RevertMetadataSpecKey(): forwarded, "why": "again"}}})
+	verifAssert("C15:forced-revert-succeeds", err == nil && out != nil)
+	if err != nil {
+		return
+	}
+	rt := out.RevertTransaction
+	verifAssert("C15:revert-metadata-mark", rt.Metadata[ledger.RevertMetadataSpecKey()] == "3" && rt.Metadata["why"] == "again")
+	stored := db.committed.txs[len(db.committed.txs)-1]
+	verifAssert("C15:revert-metadata-mark", stored.Metadata[ledger.RevertMetadataSpecKey()] == "3")
+	verifReach("end")
+}
